@@ -1,14 +1,12 @@
 // Copyright (c) 2023, Peter Ohler, All rights reserved.
 
-package cl
+package slip
 
-import "github.com/ohler55/slip"
-
-// GoTo is returned by the return-from function.
+// GoTo is returned by the go function.
 type GoTo struct {
 	// Tag can be either a Symbol or Integer and identifies a tag in a
 	// sequence of statements.
-	Tag slip.Object
+	Tag Object
 }
 
 // String returns a string representation of the object.
@@ -19,7 +17,7 @@ func (gt *GoTo) String() string {
 // Append the object to a byte slice.
 func (gt *GoTo) Append(b []byte) []byte {
 	b = append(b, "#<go "...)
-	b = slip.ObjectAppend(b, gt.Tag)
+	b = ObjectAppend(b, gt.Tag)
 	return append(b, '>')
 }
 
@@ -27,21 +25,33 @@ func (gt *GoTo) Append(b []byte) []byte {
 // string, []any, map[string]any, or time.Time.
 func (gt *GoTo) Simplify() any {
 	return map[string]any{
-		"tag": slip.Simplify(gt.Tag),
+		"tag": Simplify(gt.Tag),
 	}
 }
 
 // Equal returns true if this Object and the other are equal in value.
-func (gt *GoTo) Equal(other slip.Object) bool {
+func (gt *GoTo) Equal(other Object) bool {
 	return gt == other
 }
 
 // Hierarchy returns the class hierarchy as symbols for the instance.
-func (gt *GoTo) Hierarchy() []slip.Symbol {
-	return []slip.Symbol{slip.TrueSymbol}
+func (gt *GoTo) Hierarchy() []Symbol {
+	return []Symbol{TrueSymbol}
 }
 
 // Eval the object.
-func (gt *GoTo) Eval(s *slip.Scope, depth int) slip.Object {
+func (gt *GoTo) Eval(s *Scope, depth int) Object {
 	return gt
+}
+
+// IsExit returns true if obj is the result of a return-from, return, or go
+// that is on the way to the matching block or tag. A function that evaluates
+// forms must stop and return an exit object as soon as a form evaluates to
+// one.
+func IsExit(obj Object) bool {
+	switch obj.(type) {
+	case *ReturnResult, *GoTo:
+		return true
+	}
+	return false
 }
